@@ -2,7 +2,8 @@
     reused. Statements only; proofs are in Proofs/Upload.v and Proofs/Ids.v.
 
     The theorems quantify over EVERY fault oracle (which of NewUpload, the n-th
-    file-store operation, flush, commit fails) and every request (any sequence
+    file-store operation, a mid-upload flush at the 990-argument boundary while
+    part i is read, the flush at Commit, commit fails) and every request (any sequence
     of file / commit / other parts, a file cut anywhere, any way the part
     sequence ends), for any reader [parse_file], coalescing [coalesce], row
     rejection [rejects] and ID allocator [alloc] that only returns IDs not yet
@@ -51,15 +52,27 @@ Proof. exact (upload_success_stores_everything result rec parse_file coalesce re
 
 (** every single fault makes the upload fail (contrapositive form): a success
     met no failing NewUpload / flush / commit / refused row / file-store
-    operation, no cut, empty or unexpected part, and no broken part sequence *)
+    operation, no refused mid-upload flush at the 990-argument boundary while
+    any of its file parts was read ([o_midflush], asked once per file part
+    index), no cut, empty or unexpected part, and no broken part sequence.
+    Every component of the fault oracle occurs in the conclusion. *)
 Theorem C20_upload_success_means_no_fault : forall o st rq st' id fids,
   run o st rq = (st', UOk id fids) ->
   rq_end rq <> EndBroken
   /\ files_sound result parse_file id (rq_user rq) (rq_time rq) (rq_items rq) 0
   /\ o_new_upload o = false /\ o_flush o = false /\ o_commit o = false
   /\ rejects (coalesce (exp_results result parse_file id (rq_user rq) (rq_time rq) (rq_items rq) 0)) = false
-  /\ (forall n, n < ops_used result rec parse_file alloc o st rq -> o_fs o n = false).
+  /\ (forall n, n < ops_used result rec parse_file alloc o st rq -> o_fs o n = false)
+  /\ (forall i, In i (file_indices (rq_items rq) 0) -> o_midflush o i = false).
 Proof. exact (upload_success_means_no_fault result rec parse_file coalesce rejects alloc alloc_fresh). Qed.
+
+(** the direct form for the mid-upload flush: if the flush forced by the
+    990-argument limit is refused while file part [i] is read, the upload fails
+    (and by C20_upload_all_or_nothing no record of it becomes queryable) *)
+Theorem C20_midflush_fault_fails_upload : forall o st rq i,
+  In i (file_indices (rq_items rq) 0) -> o_midflush o i = true ->
+  snd (run o st rq) = UErr.
+Proof. exact (midflush_fault_fails_upload result rec parse_file coalesce rejects alloc alloc_fresh). Qed.
 
 (** a part sequence that breaks off with an error is always refused *)
 Theorem C20_broken_request_rejected : forall o st rq,
@@ -115,6 +128,7 @@ End C20.
 Print Assumptions C20_upload_all_or_nothing.
 Print Assumptions C20_upload_success_stores_everything.
 Print Assumptions C20_upload_success_means_no_fault.
+Print Assumptions C20_midflush_fault_fails_upload.
 Print Assumptions C20_broken_request_rejected.
 Print Assumptions C20_failed_file_removed.
 Print Assumptions C20_earlier_uploads_untouched.
@@ -204,3 +218,15 @@ Example C20_example_fault :
   /\ (exists st', run_upload_sf (Some (bs "20260930.1")) (mkOracle false (fun n => Nat.eqb n 5) (fun _ => false) false false) (mkUs [] [] []) rq
                  = (st', UErr) /\ us_recs st' = [] /\ us_fs st' = []).
 Proof. split; [eexists; eexists | eexists]; repeat split; vm_compute; reflexivity. Qed.
+
+(** non-vacuity of the mid-flush component: the second file part has index 2
+    (the "commit" field in between counts); refusing the boundary flush there
+    fails the whole upload, the first file stays stored, no record is kept *)
+Example C20_example_midflush :
+  let body := bs "BenchmarkA 1 2 ns/op" ++ [c_lf] in
+  let rq := mkReq [IFile (bs "a.txt") body 1 false; ICommit; IFile (bs "b.txt") body 1 false] EndClosed [] (bs "t") in
+  file_indices (rq_items rq) 0 = [0; 2]%N
+  /\ (exists st', run_upload_sf (Some (bs "20260930.1"))
+                   (mkOracle false (fun _ => false) (fun i => (i =? 2)%N) false false) (mkUs [] [] []) rq
+                 = (st', UErr) /\ us_recs st' = [] /\ length (us_fs st') = 1).
+Proof. split; [reflexivity|]. eexists; repeat split; vm_compute; reflexivity. Qed.
